@@ -1065,13 +1065,6 @@ Qed.
 Definition total_written (ops : list sb_op) : N :=
   fold_right (fun o acc => match o with SbWrite len => len + acc | _ => acc end) 0 ops.
 
-Definition class_ok (strict : bool) (b : sndbuf) (o : sb_op) : Prop :=
-  match o with
-  | SbAck s e | SbLoss s e => s < e
-  | SbForget => if strict then base b = 0 else True
-  | _ => True
-  end.
-
 Definition dwritten (o : sb_op) : N := match o with SbWrite len => len | _ => 0 end.
 
 Definition sent_after (b : sndbuf) (o : sb_op) (out : sb_out) : N :=
@@ -1154,6 +1147,7 @@ Lemma step_ack b s e b' :
   (forall i, s <= i < e -> colr (st b) i <> Pending).
 Proof.
   intros HI Hse E. pose proof HI as [Hwf Hsz Hsm]. unfold on_data_acked in E.
+  destruct (N.leb_spec e s); [lia|].
   destruct (ack_rcvd (st b) s e) as [m1|] eqn:Ea; [|discriminate].
   destruct (ack_rcvd_spec _ _ _ _ Hwf Hse Ea) as (A1 & A2 & A3 & A4 & A5).
   destruct (shift m1) as [m2 pos] eqn:Es.
@@ -1198,6 +1192,7 @@ Lemma step_loss b s e b' :
   (forall i, s <= i < e -> colr (st b) i <> Pending).
 Proof.
   intros HI Hse E. pose proof HI as [Hwf Hsz Hsm]. unfold may_loss_data in E.
+  destruct (N.leb_spec e s); [lia|].
   destruct (may_loss (st b) s e) as [m1|] eqn:Ea; [|discriminate]. injection E as <-.
   destruct (may_loss_spec _ _ _ _ Hwf Hse Ea) as (A1 & A2 & A3 & A4 & A5).
   assert (Hwf1 : WF m1) by (unfold WF; rewrite A1; exact A3).
@@ -1233,11 +1228,10 @@ Qed.
 (* all operations, all operation lists *)
 
 (* class of operation lists the theorems quantify over.
-   non-strict: ranges given to on_data_acked / may_loss_data are non-empty (finding F29 otherwise);
-   strict: additionally forget_sent_state is only used while nothing has been released (F28 otherwise) *)
+   non-strict: every operation list (no side condition at all);
+   strict: forget_sent_state is only used while nothing has been released (finding F28 otherwise) *)
 Definition class_okb (strict : bool) (b : sndbuf) (o : sb_op) : bool :=
   match o with
-  | SbAck s e | SbLoss s e => s <? e
   | SbForget => if strict then base b =? 0 else true
   | _ => true
   end.
@@ -1318,14 +1312,18 @@ Proof.
       intros _ HT. apply P5; exact HT.
     + injection E as <- <-. split; [exact HI|]. split; [lia|]. split; [reflexivity|]. split; [intros _; apply nopend_refl|auto].
   - (* ack *)
-    apply N.ltb_lt in Hc. destruct (N.ltb_spec e s); [lia|].
     destruct (on_data_acked b s e) as [b1|] eqn:Ea; [|discriminate]. injection E as <- <-.
-    destruct (step_ack _ _ _ _ HI Hc Ea) as (A1 & A2 & A3 & A4 & A5 & _).
+    destruct (N.leb_spec e s) as [Hes|Hes].
+    { unfold on_data_acked in Ea. destruct (N.leb_spec e s); [|lia]. injection Ea as <-.
+      split; [exact HI|]. split; [lia|]. split; [reflexivity|]. split; [intros _; apply nopend_refl|auto]. }
+    destruct (step_ack _ _ _ _ HI Hes Ea) as (A1 & A2 & A3 & A4 & A5 & _).
     split; [exact A1|]. split; [lia|]. split; [exact A3|]. split; [intros _; exact A4|intros _; exact A5].
   - (* loss *)
-    apply N.ltb_lt in Hc. destruct (N.ltb_spec e s); [lia|].
     destruct (may_loss_data b s e) as [b1|] eqn:Ea; [|discriminate]. injection E as <- <-.
-    destruct (step_loss _ _ _ _ HI Hc Ea) as (A1 & A2 & A3 & A4 & A5 & _).
+    destruct (N.leb_spec e s) as [Hes|Hes].
+    { unfold may_loss_data in Ea. destruct (N.leb_spec e s); [|lia]. injection Ea as <-.
+      split; [exact HI|]. split; [lia|]. split; [reflexivity|]. split; [intros _; apply nopend_refl|auto]. }
+    destruct (step_loss _ _ _ _ HI Hes Ea) as (A1 & A2 & A3 & A4 & A5 & _).
     split; [exact A1|]. split; [lia|]. split; [exact A3|]. split; [intros _; exact A4|intros _; exact A5].
   - (* resend_flighting *)
     injection E as <- <-. destruct (step_resend b HI) as (A1 & A2 & A3 & A4 & A5 & _).
@@ -1549,11 +1547,12 @@ Qed.
 
 (* no operation except forget_sent_state turns a byte Pending again *)
 Lemma p_c09_no_repending : forall c cap ops b outs o b' out i col,
-  reach false c cap ops b outs -> class_okb false b o = true -> sb_exec c b o = (Some b', out) ->
+  reach false c cap ops b outs -> sb_exec c b o = (Some b', out) ->
   o <> SbForget -> colour_at (st b) i = Some col -> col <> Pending ->
   exists col', colour_at (st b') i = Some col' /\ col' <> Pending.
 Proof.
-  intros c cap ops b outs o b' out i col H Hc E Ho Hcol Hne.
+  intros c cap ops b outs o b' out i col H E Ho Hcol Hne.
+  assert (Hc : class_okb false b o = true) by (destruct o; reflexivity).
   destruct (reach_inv _ _ _ _ _ _ H) as (HI & _).
   destruct (step_all _ _ _ _ _ _ HI Hc E) as (_ & _ & _ & S4 & _).
   apply colour_at_some in Hcol. destruct Hcol as [Hi Hq].
@@ -1585,10 +1584,11 @@ Proof.
 Qed.
 
 Lemma p_c09_sent_mono : forall c cap ops b outs o b' out,
-  reach false c cap ops b outs -> class_okb false b o = true -> sb_exec c b o = (Some b', out) ->
+  reach false c cap ops b outs -> sb_exec c b o = (Some b', out) ->
   o <> SbForget -> sent b <= sent b'.
 Proof.
-  intros c cap ops b outs o b' out H Hc E Ho.
+  intros c cap ops b outs o b' out H E Ho.
+  assert (Hc : class_okb false b o = true) by (destruct o; reflexivity).
   destruct (reach_inv _ _ _ _ _ _ H) as (HI & _).
   destruct (step_all _ _ _ _ _ _ HI Hc E) as (_ & _ & S3 & _).
   rewrite S3. unfold sent_after. destruct o; try lia; try congruence; destruct out as [| ? ? [] ?| |]; lia.
@@ -1660,16 +1660,89 @@ Proof.
 Qed.
 
 (* ------------------------------------------------------------------ *)
-(* the full-strength statements fail outside the two classes: concrete witnesses *)
+(* [reach false] is nothing but "sb_execs ends in a live state": no side condition on the op list *)
 
-(* F29: an empty range (the range of a FIN-only STREAM frame) reported lost at the end of the data
-   inserts a zero-length Lost run; the next pick returns an EMPTY range as a retransmission *)
-Lemma p_c09_pick_nonempty_refuted :
-  exists ops b outs b', sb_execs content (Some (with_capacity 6)) ops = (Some b, outs) /\
-    pick_up content b (fun _ => Some 3) 3 = UpOk b' 5 5 false [].
+Lemma sb_execs_none c ops : fst (sb_execs c None ops) = None.
 Proof.
-  exists [SbWrite 5; SbPick 5 5 100; SbLoss 5 5]. vm_compute. eexists _, _, _. split; reflexivity.
+  induction ops as [|o r IH]; cbn [sb_execs]; [reflexivity|].
+  destruct (sb_execs c None r) as [b2 outs]. exact IH.
 Qed.
+
+Lemma execs_run_ok c ops : forall b b' outs,
+  sb_execs c (Some b) ops = (Some b', outs) -> run_ok false c b ops = Some (b', outs).
+Proof.
+  induction ops as [|o r IH]; intros b b' outs H; cbn [run_ok sb_execs] in *.
+  - now injection H as <- <-.
+  - assert (Hc : class_okb false b o = true) by (destruct o; reflexivity). rewrite Hc.
+    destruct (sb_exec c b o) as [[b1|] out].
+    + destruct (sb_execs c (Some b1) r) as [b2 outs2] eqn:E. injection H as -> <-.
+      rewrite (IH _ _ _ E). reflexivity.
+    + pose proof (sb_execs_none c r) as Hn. destruct (sb_execs c None r) as [b2 outs2].
+      cbn [fst] in Hn. subst b2. discriminate.
+Qed.
+
+(* every successful pick has a non-empty range: over ALL operation lists (empty and inverted
+   ack / loss ranges, forget_sent_state anywhere) *)
+Lemma p_c09_pick_nonempty : forall c cap ops b outs pred flow b' s e fr d,
+  sb_execs c (Some (with_capacity cap)) ops = (Some b, outs) ->
+  (forall o a, pred o = Some a -> 1 <= a) ->
+  pick_up c b pred flow = UpOk b' s e fr d -> s < e.
+Proof.
+  intros c cap ops b outs pred flow b' s e fr d H Hp E.
+  apply execs_run_ok in H. destruct (reach_inv false c cap ops b outs H) as (HI & _).
+  destruct (pick_up_facts _ _ _ _ _ _ _ _ _ HI Hp E) as (a & _ & Hpost & _).
+  destruct Hpost as (_ & _ & P3 & _). exact P3.
+Qed.
+
+(* empty / inverted ranges are ignored by on_data_acked and may_loss_data *)
+Lemma p_c09_empty_range_noop : forall b s e, e <= s ->
+  on_data_acked b s e = Some b /\ may_loss_data b s e = Some b.
+Proof.
+  intros b s e H. unfold on_data_acked, may_loss_data. destruct (N.leb_spec e s); [split; reflexivity|lia].
+Qed.
+
+Lemma run_ok_snoc strict c ops : forall b0 b outs o b' out,
+  run_ok strict c b0 ops = Some (b, outs) -> class_okb strict b o = true -> sb_exec c b o = (Some b', out) ->
+  run_ok strict c b0 (ops ++ [o]) = Some (b', outs ++ [out]).
+Proof.
+  induction ops as [|o1 r IH]; intros b0 b outs o b' out H Hc E; cbn [run_ok app] in *.
+  - injection H as <- <-. rewrite Hc, E. reflexivity.
+  - destruct (class_okb strict b0 o1); [|discriminate].
+    destruct (sb_exec c b0 o1) as [[b1|] out1]; [|discriminate].
+    destruct (run_ok strict c b1 r) as [[b2 outs2]|] eqn:Er; [|discriminate]. injection H as <- <-.
+    rewrite (IH _ _ _ _ _ _ Er Hc E). reflexivity.
+Qed.
+
+(* forget_sent_state while nothing has been released (base = 0, its only reachable use: 0-RTT
+   rejection) stays inside the strict class, so c09_retain / c09_pick / c09_complete keep holding
+   for the state after it and for every strict continuation; the whole written data is still held *)
+Lemma p_c09_forget_safe_at_base0 : forall c cap ops b outs,
+  reach true c cap ops b outs -> base b = 0 ->
+  reach true c cap (ops ++ [SbForget]) (forget_sent_state b) (outs ++ [OUnit]) /\
+  written (forget_sent_state b) = written b /\ base (forget_sent_state b) = 0 /\
+  (forall i, colour_at (st (forget_sent_state b)) i = None) /\
+  (forall s e, e <= written b -> data_of c (forget_sent_state b) s e = slice c s (e - s)).
+Proof.
+  intros c cap ops b outs H Hb. split; [|split; [|split; [|split]]].
+  - unfold reach in *. eapply run_ok_snoc; [exact H| |reflexivity]. cbn [class_okb]. now apply N.eqb_eq.
+  - reflexivity.
+  - exact Hb.
+  - intro i. rewrite colour_at_colr. unfold forget_sent_state, empty_map. cbn [st size].
+    destruct (N.ltb_spec i 0); [lia|reflexivity].
+  - intros s e He. unfold data_of, forget_sent_state, written in *. cbn [base retained]. rewrite Hb in *.
+    replace (N.max s 0) with s by lia. replace (N.min e (0 + retained b)) with e by lia. reflexivity.
+Qed.
+
+(* ------------------------------------------------------------------ *)
+(* the full-strength data statement fails outside the strict class: concrete witness *)
+
+(* F29 (fixed by `fix: SendBuf ignores empty ranges ...`): empty ranges are ignored, so the former
+   witness write 5; pick; loss 5..5 leaves the map untouched and the next pick is refused *)
+Lemma p_c09_f29_regression :
+  exists b outs, sb_execs content (Some (with_capacity 6)) [SbWrite 5; SbPick 5 5 100; SbLoss 5 5; SbAck 5 5; SbLoss 7 2] = (Some b, outs) /\
+    runs (st b) = [(0, Flighting)] /\
+    pick_up content b (fun _ => Some 3) 3 = UpErr true false false.
+Proof. vm_compute. eexists _, _. split; [reflexivity|]. split; reflexivity. Qed.
 
 (* F28: forget_sent_state after an acknowledgement released bytes from the deque: the bytes are
    Pending again, are offered as fresh data, but the data handed out is not the written slice *)
